@@ -145,6 +145,29 @@ def gen(props, tier, rng):
                         # a genuine SCHC packet of this rule set (computed by the reference; any bit string is fine for the history check)
                         schcs.append('R:' + ids[rng.randrange(0, 9)] + rulegen.rbits(rng, rng.randrange(0, 120)))
             yield f"hist manager {esc(stack)} {e_rules(rules_all)} {len(ops)} {' '.join(ops)} # {tags}"
+    if props & {'C16'}:
+        # long-lived managers built on a next-header-PREDICTING parser ('IPv6', 'IPv4', 'UDP'), fed packets whose upper
+        # protocol changes from call to call: the parse of one packet must not depend on the packets seen before
+        from . import parsestream
+        for h in range(H):
+            stack = ['IPv6', 'IPv4', 'UDP'][h % 3]
+            ids = rulegen.prefix_free_codes(rng, 8, maxlen=6)
+            pool, rules_all, seen = [], [], set()
+            for k in range(24):
+                data, exp = parsestream.gen_wellformed(rng, stack)
+                bits = packets.bits_of(data)
+                used = sum(len(b) for _, _, b in exp)
+                if used > len(bits): continue
+                pkt = rulegen.packet_from_fields(exp, bits[used:], 'U')
+                pool.append('L:' + bits)
+                shape = tuple(i for i, _, _ in exp)
+                if shape not in seen and len(seen) < 6:
+                    seen.add(shape)
+                    rules_all.append({'id': abuf(ids[len(seen) - 1]), 'nature': 'c',
+                                      'fields': [rulegen.derive_rfield(rng, f, pairing=('ig', 'vs'), variable=False, allow_compute=False) for f in pkt['fields']]})
+            rules_all.append(rulegen.default_rule(ids[7]))
+            ops = [f"c {rng.choice(pool)} {rng.choice('UD')} {rng.choice(['first', 'best'])}" for _ in range(LEN)]
+            yield f"hist manager {esc(stack)} {e_rules(rules_all)} {len(ops)} {' '.join(ops)} # {tags}"
     if props & {'C16', 'C04', 'C18'}:
         for h in range(H * 2):
             pkt = rulegen.gen_generic_packet(rng)
